@@ -69,6 +69,7 @@ type c09Msg struct {
 	na, nn, nx int
 	shapes     []int // na+nn+nx shape numbers in section order
 	opt        int   // 0 none, 1 OPT last in additional, 2 OPT first in additional
+	firstTxtLen int  // > 0: the first record of the reply is replaced by a TXT on the question name with this many text octets
 	optKind    int   // 0 empty OPT; 1 OPT built in memory with NSID + COOKIE options (Hdr.Rdlength 0); 2 OPT without options whose Hdr.Rdlength is stale (as after unpacking and stripping the options)
 	compress   bool
 	tc         bool
@@ -135,6 +136,26 @@ func c09Build(d c09Msg) *dns.Msg {
 	}
 	if d.opt == 1 {
 		m.Extra = append(m.Extra, newOPT())
+	}
+	if d.firstTxtLen > 0 {
+		var chunks []string
+		for left := d.firstTxtLen; left > 0; left -= 255 {
+			chunks = append(chunks, strings.Repeat("w", min(left, 255)))
+		}
+		big := &dns.TXT{Hdr: dns.RR_Header{Name: c09Q, Rrtype: dns.TypeTXT, Class: dns.ClassINET, Ttl: 300}, Txt: chunks}
+		switch {
+		case len(m.Answer) > 0:
+			m.Answer[0] = big
+		case len(m.Ns) > 0:
+			m.Ns[0] = big
+		default:
+			for i, rr := range m.Extra {
+				if !c09IsOPT(rr) {
+					m.Extra[i] = big
+					break
+				}
+			}
+		}
 	}
 	if d.tsig {
 		m.Extra = append(m.Extra, &dns.TSIG{
@@ -221,6 +242,11 @@ func c09Reply(r *fw.R, d c09Msg) {
 
 	sizes := make([]int, 0, U+8)
 	for s := 0; s <= U+2; s++ {
+		// every size below the documented 512-octet floor is the same request as 512: in the quick tier only a
+		// spread of them is run (every one in the thorough tier); every size from 505 upwards is always run
+		if s < 505 && !r.Thorough() && !(s <= 2 || s%64 == 0 || s == 255 || s == 300 || s == 400 || s == 500) {
+			continue
+		}
 		sizes = append(sizes, s)
 	}
 	for _, s := range []int{511, 512, 513, 65535} {
@@ -442,7 +468,7 @@ func c09Spaces(c *fw.Ctx) {
 	shapeRule := secRule + "every assignment within Hamming distance ≤ 1 of a uniform assignment x^P and every staircase y^k x^(P-k) (0<k<P, x≠y in the pool)"
 	tsigRule := secRule + "the uniform assignments x^P and the staircases y^k x^(P-k)"
 
-	c.Space("replies", shapeRule+"; × OPT {none, last in additional, first in additional (only when additional is non-empty)} × Compress {false,true} × Truncated {false,true}; per message every size 0..uncompressed length+2 and 511, 512, 513, 65535, each on a fresh Copy(); non-trivial: at least one of the sizes makes Truncate drop a record", true,
+	c.Space("replies", shapeRule+"; × OPT {none, last in additional, first in additional (only when additional is non-empty)} × Compress {false,true} × Truncated {false,true}; per message every size 505..uncompressed length+2, below that (all equivalent to the 512 floor) the sizes 0,1,2,255,300,400,500 and every multiple of 64 in the quick tier and every size in the thorough tier, plus 511, 512, 513, 65535, each on a fresh Copy(); non-trivial: at least one of the sizes makes Truncate drop a record", true,
 		func(emit func(func(*fw.R))) {
 			for na := 0; na <= maxSec; na++ {
 				for nn := 0; nn <= maxSec; nn++ {
@@ -457,6 +483,20 @@ func c09Spaces(c *fw.Ctx) {
 									emit(func(r *fw.R) { c09Reply(r, d) })
 								}
 							}
+						}
+					}
+				}
+			}
+		})
+
+	c.Space("single-record-window", "replies whose first record is a TXT on the question name of L = 330..445 text octets (so that header + question + that record fits in 512 octets compressed but not uncompressed for part of the range) in the section layouts (1,0,0) (0,1,0) (0,0,1) (0,0,2) (1,0,1) (1,1,1), followed by short A records; × OPT {none, last} × Compress × Truncated; sizes as in 'replies'; non-trivial: some size drops a record", true,
+		func(emit func(func(*fw.R))) {
+			for _, lay := range [][3]int{{1, 0, 0}, {0, 1, 0}, {0, 0, 1}, {0, 0, 2}, {1, 0, 1}, {1, 1, 1}} {
+				for L := 330; L <= 445; L++ {
+					for opt := 0; opt <= 1; opt++ {
+						for f := 0; f < 4; f++ {
+							d := c09Msg{na: lay[0], nn: lay[1], nx: lay[2], shapes: make([]int, lay[0]+lay[1]+lay[2]), opt: opt, firstTxtLen: L, compress: f&1 != 0, tc: f&2 != 0}
+							emit(func(r *fw.R) { c09Reply(r, d) })
 						}
 					}
 				}
